@@ -15,29 +15,7 @@ ASSUMPTIONS = ["GVariant format not covered"]
 
 
 def words():
-    out = []
-    for a in (0, 1, 31, 32, 33):
-        for s in (0, 1, 31, 32, 33):
-            for v in (0, 1, 2):
-                if a + s + v == 0:
-                    continue
-                out.append("a" * a + "(" * s + "v" * v)
-                out.append("(" * s + "v" * v + "a" * a)
-                out.append("v" * v + "a" * a + "(" * s)
-    # totals around 64 with variants
-    for v in (0, 1, 2, 3, 30, 31, 32, 33, 34, 63, 64, 65, 66):
-        out.append("a" * 16 + "(" * 16 + "v" * v)
-        out.append("v" * v + "a" * 31)
-        out.append("v" * v)
-        out.append("a" * 32 + "(" * 32 + "v" * min(v, 3))
-    # interleavings
-    for k in (15, 16, 17, 31, 32, 33):
-        out.append("a(" * k)
-        out.append("(a" * k)
-        out.append("av(" * (k // 2))
-        out.append("{(" * k)
-        out.append("{" * k)
-    return sorted(set(out))
+    return G.limit_words()
 
 
 def gen(rng, tier):
